@@ -138,6 +138,7 @@ func run(seed int64) (msg string) {
 			if rng.Intn(2) == 0 && alloc.Size() == 0 && len(before) > 0 {
 				f, _ := os.CreateTemp("", "hvalloc")
 				f.Close()
+				defer os.Remove(f.Name())
 				if err := alloc.Serialize(f.Name()); err != nil {
 					return "serialize err " + err.Error()
 				}
